@@ -567,7 +567,14 @@ func init() {
 		Technique: "explicit-state search over the real Set: all subsets of a 6/7-value universe reachable by every insertion order x every operation, for the default, a reversed and a coarse caller-supplied collator and five element types; sorted-slice reference model",
 		Rule:      "state = dump of private fields (all subsets of the universe are reached); transition = (state, op)",
 		Assume:    []string{"universes of 6 (quick) / 7 (thorough) values", "for Set[any] the model order is the collator's own ranking (C07 decides the collator)"},
-		Budget:    func(string) time.Duration { return 5 * time.Minute },
+		Budget: func(tier string) time.Duration {
+			// the quick search finishes in seconds; the budget only bounds a search whose state space a change of
+			// the library has made unbounded (a private modification counter): reported as not exhaustive
+			if tier == "thorough" {
+				return 15 * time.Minute
+			}
+			return 90 * time.Second
+		},
 		Units:     units,
 	})
 }
